@@ -6,7 +6,7 @@
     overlap_counterexample(_min) (F-C17a, open) and pinned_kwargs_counterexample (F-C17b, fixed);
     io.capture as a mode of the stream machine (Model/Act.lean `Mode`, Proofs/ActMode.lean): restore_forest_mode,
     restore_exec_nocapture, nocapture_passthrough(_init), captured_intact_mode, mode_extends_fwd, capture_mode_independent_classification,
-    save_out_independent_of_capture_partial (+ _refuted: the full statement is false of the code), py_stored.
+    save_out_independent_of_capture_partial (+ _refuted: the full statement is false of the code), live_rule_nocapture.
 (K) the real PythonAction / CmdAction / Task.execute of $VERIF_REPO are run on generated cases (harness/actlib.py)
     and every observable is compared with the Lean model through doitdrv.
 (P) the statement: classification by category, task stops at the first unsuccessful action and result/values
@@ -805,6 +805,11 @@ def count_case(st, case):
         st.count('py.cat:' + case['ret']['cat'])
         st.count('py.capture:%s' % case.get('capture', True))
         st.count('py.v:%s' % case.get('v'))
+        pcap = 'no' if case.get('cls') == 'interactive' else cap_class(case.get('capture', True))
+        st.count('py.mode:capture-%s.v:%s' % (pcap, case.get('v')))
+        if all(actlib.op_kind(w) in ('write', 'print', 'flush', 'isatty') for w in case.get('writes', [])):
+            # hypothesis of capture_mode_independent_classification (StreamOp.common)
+            st.count('py.hyp:common_ops.capture-%s' % pcap)
         if case.get('kwargs_raise'):
             st.count('py.kwargs_raise')
         if case.get('swap', 'none') != 'none':
@@ -825,6 +830,9 @@ def count_case(st, case):
         st.count('cmd.rc:' + ('signal' if rc < 0 else '0' if rc == 0 else '1-125' if rc <= 125 else '126-255'))
         st.count('cmd.capture:%s' % case.get('capture', True))
         st.count('cmd.v:%s' % case.get('v'))
+        st.count('cmd.mode:capture-%s.v:%s' % (cap_class(case.get('capture', True)), case.get('v')))
+        if case.get('save_out') is not None and case.get('cls', 'CmdAction') == 'CmdAction':
+            st.count('cmd.save_out.capture-%s.%s' % (cap_class(case.get('capture', True)), 'ok' if rc == 0 else 'unsuccessful'))
         size = sum(len(actlib.chunk_bytes(s)) for c, s in case.get('chunks', []))
         st.count('cmd.bytes:' + ('0' if size == 0 else '<1k' if size < 1024 else '<64k' if size < 65536 else '>=64k'))
         if case.get('expand', 'ok') != 'ok':
